@@ -32,7 +32,8 @@ from bounded import c01_cases as cc
 MODULE = "checks.bounded_C22"
 ROOT = os.path.dirname(os.path.dirname(os.path.abspath(__file__)))
 RUNNER = os.path.join(ROOT, "bounded", "c22_runner.py")
-ISLA_SRC = "/repo/src/isla"
+import isla as _isla_pkg
+ISLA_SRC = os.path.dirname(os.path.abspath(_isla_pkg.__file__))
 
 N_SOLUTIONS = 8
 HASHSEEDS = ("0", "1", "42", "123456")
